@@ -1,5 +1,5 @@
 (* C07 - a refused transfer moves no data, leaks nothing and leaves the session usable. *)
-From LibFtp Require Import Bytes Decimal Reply Endpoint Ascii DataConn DataConn_Proofs Client Client_Proofs Login_Proofs Transfer_Proofs Transfer_More.
+From LibFtp Require Import Bytes Decimal Reply Endpoint Ascii DataConn DataConn_Proofs Client Client_Proofs Login_Proofs Transfer_Proofs Transfer_More Refusals.
 Local Open Scope N_scope.
 
 (* Refusal at the set-up command in passive mode (EPSV or PASV answered by any negative reply other than 421), for
@@ -95,3 +95,66 @@ Theorem C07_refused_at_transfer_command_active : forall w verb path io k_ok r1 r
     data_events (skipn (length (w_trace w)) (w_trace w')) = [DNewObj; DListen; DAccClose].
 Proof. exact refused_at_transfer_command_active. Qed.
 Print Assumptions C07_refused_at_transfer_command_active.
+
+(* ... and for LISTINGS (LIST / NLST, with or without a path; Refusals.v proves the four refusal theorems for any verb,
+   argument, continuation and result shape): refused at the set-up command or at LIST / NLST itself, passive and active *)
+Theorem C07_list_refused_at_setup_passive : forall w path names r1 rest x1,
+  arg_ok path -> insync w (r1 :: rest) -> w_data w = None -> c_mode (w_cfg w) = Passive ->
+  simple_reaction r1 x1 -> is_negative x1 = true ->
+  exists w', step w (AList path names) = (OReturn (RvList [x1] []), w') /\
+    insync w' rest /\ w_data w' = None /\ w_cfg w' = w_cfg w /\
+    io_events (skipn (length (w_trace w)) (w_trace w')) = [] /\
+    wire_events (skipn (length (w_trace w)) (w_trace w')) = [WLine (setup_line (w_cfg w)); WReply x1] /\
+    data_events (skipn (length (w_trace w)) (w_trace w')) = [].
+Proof. exact list_refused_at_setup_passive. Qed.
+Print Assumptions C07_list_refused_at_setup_passive.
+
+Theorem C07_list_refused_at_command_passive : forall w path names r1 r2 rest x1 x2 ip port,
+  arg_ok path -> insync w (r1 :: r2 :: rest) -> w_data w = None -> c_mode (w_cfg w) = Passive ->
+  simple_reaction r1 x1 -> is_negative x1 = false -> passive_target (w_cfg w) x1 ip port ->
+  dp_reachable (r_data r1) = true ->
+  simple_reaction r2 x2 -> is_negative x2 = true ->
+  exists w', step w (AList path names) = (OReturn (RvList [x1; x2] []), w') /\
+    insync w' rest /\ w_data w' = None /\ w_cfg w' = w_cfg w /\
+    io_events (skipn (length (w_trace w)) (w_trace w')) = [] /\
+    wire_events (skipn (length (w_trace w)) (w_trace w')) =
+      [WLine (setup_line (w_cfg w)); WReply x1; WLine (line_of (list_verb names) path); WReply x2] /\
+    data_events (skipn (length (w_trace w)) (w_trace w')) =
+      [DNewObj; DConnectTo ip port true; DTcpShutdown; DClose].
+Proof. exact list_refused_at_command_passive. Qed.
+Print Assumptions C07_list_refused_at_command_passive.
+
+Theorem C07_list_refused_at_setup_active : forall w path names r1 rest x1 line,
+  arg_ok path -> insync w (r1 :: rest) -> w_data w = None -> c_mode (w_cfg w) = Active -> adv_cmd w = Some line ->
+  simple_reaction r1 x1 -> is_negative x1 = true ->
+  exists w', step w (AList path names) = (OReturn (RvList [x1] []), w') /\
+    insync w' rest /\ w_data w' = None /\ w_cfg w' = w_cfg w /\
+    io_events (skipn (length (w_trace w)) (w_trace w')) = [] /\
+    wire_events (skipn (length (w_trace w)) (w_trace w')) = [WLine line; WReply x1] /\
+    data_events (skipn (length (w_trace w)) (w_trace w')) = [DNewObj; DListen; DAccClose].
+Proof. exact list_refused_at_setup_active. Qed.
+Print Assumptions C07_list_refused_at_setup_active.
+
+Theorem C07_list_refused_at_command_active : forall w path names r1 r2 rest x1 x2 line,
+  arg_ok path -> insync w (r1 :: r2 :: rest) -> w_data w = None -> c_mode (w_cfg w) = Active -> adv_cmd w = Some line ->
+  simple_reaction r1 x1 -> is_negative x1 = false ->
+  simple_reaction r2 x2 -> is_negative x2 = true ->
+  exists w', step w (AList path names) = (OReturn (RvList [x1; x2] []), w') /\
+    insync w' rest /\ w_data w' = None /\ w_cfg w' = w_cfg w /\
+    io_events (skipn (length (w_trace w)) (w_trace w')) = [] /\
+    wire_events (skipn (length (w_trace w)) (w_trace w')) = [WLine line; WReply x1; WLine (line_of (list_verb names) path); WReply x2] /\
+    data_events (skipn (length (w_trace w)) (w_trace w')) = [DNewObj; DListen; DAccClose].
+Proof. exact list_refused_at_command_active. Qed.
+Print Assumptions C07_list_refused_at_command_active.
+
+(* an upload refused at EPSV / PASV: the source is not read *)
+Theorem C07_upload_refused_at_setup_passive : forall w u path chunks cb r1 rest x1,
+  has_crlf path = false -> insync w (r1 :: rest) -> w_data w = None -> c_mode (w_cfg w) = Passive ->
+  simple_reaction r1 x1 -> is_negative x1 = true ->
+  exists w', step w (AUpload u path chunks cb) = (OReturn (RvReplies [x1]), w') /\
+    insync w' rest /\ w_data w' = None /\ w_cfg w' = w_cfg w /\
+    io_events (skipn (length (w_trace w)) (w_trace w')) = [] /\
+    wire_events (skipn (length (w_trace w)) (w_trace w')) = [WLine (setup_line (w_cfg w)); WReply x1] /\
+    data_events (skipn (length (w_trace w)) (w_trace w')) = [].
+Proof. exact upload_refused_at_setup_passive. Qed.
+Print Assumptions C07_upload_refused_at_setup_passive.
